@@ -40,8 +40,8 @@ AnyUpper(u) == CASE u.k = "lit" -> u.c \in Upper [] u.k = "cls" -> u.s \cap Uppe
                  [] u.k \in {"rep", "grp"} -> AnyUpper(u.a) [] OTHER -> FALSE
 CaseInsensitive(u, o) == o.ci \/ (o.smart /\ AnyLit(u) /\ ~AnyUpper(u))
 
-LineTermSym(o) == IF o.nul THEN SNUL ELSE SLF
-Env(o) == [crlf |-> o.crlf, lt |-> LineTermSym(o)]
+\* (?m)^ and $ always refer to \n (or CRLF), also under --null-data, where a "line" may contain \n
+Env(o) == [crlf |-> o.crlf, lt |-> SLF]
 
 \* number capture groups left to right; returns <<sem, next group index>>
 RECURSIVE Lower(_, _, _, _)
@@ -50,7 +50,7 @@ Lower(u, ci, o, g) ==
     [] u.k = "cls" -> LET s1 == IF ci THEN FoldSet(u.s) ELSE u.s IN
                       << Set(IF u.neg THEN ValidSyms \ s1 ELSE s1), g >>
     [] u.k = "wcls" -> << Set(IF u.neg THEN ValidSyms \ WordSyms ELSE WordSyms), g >>
-    [] u.k = "dot" -> << Set(ValidSyms \ ({LineTermSym(o)} \cup (IF o.crlf THEN {SCR} ELSE {}))), g >>
+    [] u.k = "dot" -> << Set(ValidSyms \ ({SLF} \cup (IF o.crlf THEN {SCR} ELSE {}))), g >>
     [] u.k = "cat" -> LET x == Lower(u.a, ci, o, g) y == Lower(u.b, ci, o, x[2]) IN << Cat(x[1], y[1]), y[2] >>
     [] u.k = "alt" -> LET x == Lower(u.a, ci, o, g) y == Lower(u.b, ci, o, x[2]) IN << Alt(x[1], y[1]), y[2] >>
     [] u.k = "rep" -> LET x == Lower(u.a, ci, o, g) IN << Rep(x[1], u.min, u.max, u.g), x[2] >>
